@@ -41,7 +41,7 @@ def picDigest (p : Option DecPic) (full : Bool) : String :=
     let (w, h) := p.fmt.dims.getD (0, 0)
     let planes := if full then s!"{hex p.luma} {hex p.cb} {hex p.cr}"
                   else s!"{hex16 (fnv p.luma)} {hex16 (fnv p.cb)} {hex16 (fnv p.cr)}"
-    s!"[tr={p.hdr.tr} type={typeS p.hdr.picType} q={p.hdr.quantizer} opts={p.hdr.options} {w}x{h} n={p.luma.size},{p.cb.size},{p.cr.size} spr={p.chromaSpr} {planes}]"
+    s!"[tr={p.hdr.tr} type={typeS p.hdr.picType} q={p.hdr.quantizer} opts={p.hdr.options} {w}x{h} n={p.luma.size},{p.cb.size},{p.cr.size} spr={p.chromaSpr} lrow={w} {planes}]"
 
 def outS {α : Type} (o : Out α) : String :=
   match o with
